@@ -17,7 +17,7 @@ CHECKS = {
          'Generated histories with 1..n reopen events, rejected operations and payloads from 0 B to 25 MiB; in StrictlyAtOnce mode the FIFO model simply ignores reopen events, in AtLeastOnce mode a candidate-set model allows the cursor to move back but never forward.',
          'Clean shutdown is a normal process exit or drop after all appends returned; durability below the page cache is C10.', '§5 C06'),
  'C17': ('E1', 'exploration', 'model-based property testing of marker histories with reopen at generated delays',
-         'Histories over append/mark_clean/mark_dirty/is_clean/sleep/reopen with a probe of every topic after each reopen against a boolean-per-topic model; reopen happens at 0..250 ms after the last call, in a fresh process or in-process.',
+         'Histories over append/mark_clean/mark_dirty/is_clean/sleep/reopen with a probe of every topic after each reopen against a boolean-per-topic model; reopen happens at 0..250 ms after the last call, in a fresh process or in-process. A second search (marker-outage) adds transient outages of the marker file (the driver occupies the name of its temporary file with a directory - mkdir/rmdir only - and always frees it before a shutdown): what was acknowledged during the outage must be what the next lifetime reports.',
          'After a failed append or an empty batch the marker state is unspecified and the model accepts either value until the next defining call.', '§5 C17'),
  'C15': ('E1', 'exploration', 'model-based property testing with count probes after every operation',
          'Count and count-map probes after every operation of generated histories with rejected operations, peeks, offset reads and restarts, compared with appended-consumed of the FIFO model; plus counts at quiescence after scheduled producer/consumer races.',
@@ -55,7 +55,7 @@ CHECKS.update({
          'Each generated case allocates all 100 blocks of the first WAL file over 1-5 topics and moves every active block to the second file, applies a generated per-topic consumption plan (drain + empty polls / partial / peeks / nothing) and extra reads, waits for the 1000-tick reclaimer, runs a second phase and then demands - normally after a fresh-process restart - exactly the unconsumed entries; if a WAL file disappeared, every entry stored in it must have been consumed.',
          'Open finding C12-positions-shift-after-reclaim (restart after a reclaimed file renumbers blocks; persisted cursors then skip unconsumed entries) is probed on every run; while it is open, cases in which a file really was reclaimed are finished without the restart. ~0.6 GB of tmpfs per case.', '§5 C12'),
  'C13': ('E4', 'exploration', 'model-based property testing with several live instances in one process (per-instance FIFO/marker models, foreign-entry detection, directory watching) plus a heavy two-instance reclamation cross-talk scenario',
-         '2-3 instances from five (data dir, key) slots share topic names and run interleaved generated histories incl. in-process reopen of one instance and whole-process restarts; every response is judged against that instance\'s own model and no WAL file of another instance may disappear. Heavy search: both instances allocate >100 blocks in lock-step, one consumes everything, the other nothing; no file of the idle instance may be reclaimed and after a restart it must deliver everything.',
+         '2-3 instances from six (data dir, key) slots (incl. an un-keyed instance in the parent directory of keyed ones and a digit-only key that looks like a WAL file name) share topic names and run interleaved generated histories incl. in-process reopen of one instance and whole-process restarts; every response is judged against that instance\'s own model and no WAL file of another instance may disappear. Heavy search: both instances allocate >100 blocks in lock-step, one consumes everything, the other nothing; no file of the idle instance may be reclaimed and after a restart it must deliver everything.',
          'All instances live in one child process. Payloads >= 8 bytes are unique across instances.', '§5 C13'),
  'C05': ('E3', 'exploration', 'schedule-controlled concurrency testing (H2 token scheduler: generated thread programs x generated schedules, plus preemption-bounded enumeration of all schedules of small two-thread programs) with an exactly-once / real-time-order oracle',
          'Real threads run the real engine one at a time; at every lock-free yield point of the read/append paths the generated schedule decides who continues, so interleavings are inputs and replayable. Oracle: delivered multiset == successfully appended multiset, per-producer order inside each read result and between reads ordered in real time, batch contiguity; a producers-only variant checks the drained serialisation.',
